@@ -4,17 +4,23 @@
 cd "$(dirname "$0")"
 [ -x bin/fpcheck ] || ./build.sh || exit 2
 REPO="${FPCHECK_REPO:-/repo}"
+# evidence/<id>.json describes /repo only: a run against another tree (a scratch copy with a seeded change, say)
+# writes its evidence and violation files elsewhere
+EV=""
+if [ "$REPO" != "/repo" ]; then
+  EV="-evidence ${TMPDIR:-/tmp}/fpcheck-evidence-scratch"
+fi
 if [ "$1" = "--replay" ]; then
-  exec ./bin/fpcheck -repo "$REPO" -verif "$(pwd)" -replay "$2"
+  exec ./bin/fpcheck -repo "$REPO" -verif "$(pwd)" $EV -replay "$2"
 fi
 TIER="${2:-${VERIF_TIER:-quick}}"
 if [ "$TIER" = "thorough" ]; then
   # canaries: each rule of the property must fire on the mutants of mutants/corpus.py that break it
   CAN="$(mktemp "${TMPDIR:-/tmp}/fpcanary.XXXXXX")"
   FPCHECK_REPO="$REPO" python3 selftest.py --canary "$1" "$CAN" >/dev/null 2>&1 || echo '[]' > "$CAN"
-  ./bin/fpcheck -repo "$REPO" -verif "$(pwd)" -property "$1" -tier thorough -canary "$CAN"
+  ./bin/fpcheck -repo "$REPO" -verif "$(pwd)" $EV -property "$1" -tier thorough -canary "$CAN"
   rc=$?
   rm -f "$CAN"
   exit $rc
 fi
-exec ./bin/fpcheck -repo "$REPO" -verif "$(pwd)" -property "$1" -tier "$TIER"
+exec ./bin/fpcheck -repo "$REPO" -verif "$(pwd)" $EV -property "$1" -tier "$TIER"
